@@ -32,7 +32,7 @@ class LookupBase(Contract):
         return out
 
     def post(self, c0, c1, a, res):
-        return {"inv_region": forest.inv_region(c1)}
+        return {**forest.inv_region_parts(c1)}
 
     def selects(self, self_cls, args):
         return len(args) > 1 and args[1].k == self.addr_kind
